@@ -73,7 +73,31 @@ def rp_calls(A, fn):
     return [c for c in fn.calls(lambda r: r['path'] == A['RP'].id)]
 
 
+def extern_align_guard(ctx):
+    """G18: an extern type's declared alignment is rejected unless it is a power of two — unconditionally (every extern type,
+    every path): the emitted #[repr(align(N))] does not compile otherwise, and 0 would divide by zero later"""
+    P = ctx.prog
+    am = [f for f in P.fns.values() if f.id.endswith('SemanticState::add_module')]
+    if not am:
+        ctx.fail_closed(['C13', 'C02', 'C03'], 'R-GUARD', 'G18|extern-align-power-of-two', 'SemanticState::add_module not found')
+        return
+    fam_ = method_family(P, am[0], exclude=('SemanticState::add_item',))
+    fam_ += [h_ for h_ in exclusive_family(P, am[0], exclude=('SemanticState::add_item',)) if h_ not in fam_ and h_.kind != 'Closure']
+    okx, where = False, loc(am[0].span)
+    for h_ in fam_:
+        for g_ in guards_of(h_):
+            if g_.kind == 'reject' and any(isinstance(x, tuple) and x[0] == 'call' and x[1].endswith('::is_power_of_two') for x in walk(g_.pred)):
+                # evaluated on every trip of the extern-type loop, or (in a helper whose error the caller propagates) on every
+                # path to the helper's success
+                cov = covers_each_iteration(h_, g_)[0] if innermost_loop(h_, g_.block) else covers_all_paths(h_, g_)
+                if cov:
+                    okx, where = True, g_.where()
+    ctx.ob(['C13', 'C02', 'C03'], 'R-GUARD', 'G18|extern-align-power-of-two', okx,
+           'the `align` of every extern type is tested with is_power_of_two and rejected otherwise, on every path that registers the type', where)
+
+
 def run(ctx):
+    extern_align_guard(ctx)
     A = anchors(ctx)
     if not A:
         return
